@@ -3,7 +3,7 @@
 From Coq Require Import List NArith Bool.
 Import ListNotations.
 From TV Require Import C18.Model C14.Utf8 C14.Model C14.Peer C14.ProofsCodec C14.ProofsRecv
-  C14.ProofsReasm C14.ProofsMain C15.Model C15.Proofs C15.ProofsReach C15.ProofsUnknown.
+  C14.ProofsReasm C14.ProofsMain C15.Model C15.Proofs C15.ProofsReach C15.ProofsUnknown C14.Ref C14.Run C14.ProofsP4 C15.Run C15.ProofsP4.
 Local Open Scope N_scope.
 
 (* One step.  In any live receiver state (not terminated, stream open; the two state
@@ -109,3 +109,18 @@ Theorem C15_poisoned_reassembly_never_delivers :
     poisoned ist st -> outcome_msgs ist (run_frames ist z_inflate cfg eof st fs) = Some (msgs ist st).
 Proof. exact poisoned_never_delivers. Qed.
 Print Assumptions C15_poisoned_reassembly_never_delivers.
+
+(* Phase 4 - checker soundness.  C15's check_case computes, from the input bytes alone (the
+   reference decoder of C14/Ref.v: parse all frames, then walk them RFC-style), which messages
+   must have been delivered and whether the connection must have been aborted.  On every case
+   the reference decides it accepts the model's observable, unless the declaration of the
+   harness-side peer (messages before the violation, violated or not) differs from what the
+   reference computes - an input-only condition. *)
+Theorem C15_check_accepts_model :
+  forall decomp max key eof wire tape before violated,
+    ref_decode itape tape_inflate decomp max tape (expand wire) <> RUnknown ->
+    C15.Run.check_case (VCase decomp max key eof wire tape before violated)
+                       (C15.Run.run_case (VCase decomp max key eof wire tape before violated))
+    = meta_consistent decomp max tape (expand wire) before violated.
+Proof. exact check_violation_model. Qed.
+Print Assumptions C15_check_accepts_model.
